@@ -23,7 +23,7 @@ VARIABLES w, last
 vars == <<w, last>>
 
 Cfg == [comps |-> Comps, rels |-> Rels, sized |-> Sized, nres |-> 1, totalBits |-> 256,
-        lst |-> [on |-> TRUE, S |-> 63, C |-> {}, hasC |-> FALSE]]
+        lst |-> [on |-> TRUE, S |-> 63, C |-> {}, hasC |-> FALSE], isDispatch |-> FALSE, subs |-> <<>>]
 
 F(k, ids) == [k |-> k, ids |-> ids, exc |-> <<>>, tgt |-> Zero, reg |-> -1, subs |-> <<>>]
 RelF(inner, t) == [k |-> "rel", ids |-> <<>>, exc |-> <<>>, tgt |-> t, reg |-> -1, subs |-> <<inner>>]
